@@ -239,3 +239,15 @@ def shrink(c):
         if v:
             b = bytes.fromhex(v)
             yield dict(c, extra=c["extra"][:i] + [[k, b[:len(b) // 2].hex()]] + c["extra"][i + 1:])
+
+
+# functions of /repo whose executed-line coverage by this run is reported in the evidence
+ANCHORS = [('swh/model/git_objects.py', 'revision_git_object'),
+           ('swh/model/git_objects.py', 'format_author_data'),
+           ('swh/model/git_objects.py', 'format_date'),
+           ('swh/model/git_objects.py', 'escape_newlines'),
+           ('swh/model/git_objects.py', 'format_git_object_from_headers'),
+           ('swh/model/model.py', 'Revision.__attrs_post_init__'),
+           ('swh/model/model.py', 'Revision.check_author'),
+           ('swh/model/model.py', 'Revision.check_committer'),
+           ('swh/model/model.py', 'tuplify_extra_headers')]
